@@ -61,6 +61,7 @@ type Loc struct {
 }
 
 type Obl struct {
+	Unstable string // thorough tier: status of the reseeded re-run when it was not unsat
 	Name   string
 	Kind   string
 	Func   string
